@@ -19,7 +19,7 @@ RULE = ('case = (hint over user classes defined in the generated module, rendere
         'call). A module is generated per case and executed under a registered module name. Differential oracle: for every probe object '
         'the string / postponed variant gives the verdict and violation class of the variant with evaluated annotations; calling before '
         'the referenced name exists raises a beartype forward-reference exception and the same wrapper works once the name is defined. '
-        'non-trivial = forward (defined-later) reference, or class / closure scope; distinct by canonical JSON')
+        'Spellings: whole string, postponed, or partial (only the class name quoted inside an evaluated parent: list[\'Target\']); half of the cases execute the same source once before as a decoy module (same annotation text, other classes). non-trivial = forward (defined-later) reference, or class / closure scope; distinct by canonical JSON')
 ASSUMPTIONS = [
     'only names that Python itself would resolve for the evaluated spelling are generated (simple names; the enclosing class through its own name)',
     'the reference variant evaluates annotations eagerly with the classes defined first',
